@@ -209,6 +209,10 @@ C17_Snapshots == \A c \in Chans : \A i \in 1..Len(delivered[c]) :
                        Apply(p, n.ev, a).kind = "applied" /\ Apply(p, n.ev, a).rec = n.rec
                  \/ crashes > 0
 
+(* C06: the durable record is always one that some prefix of the applied events produced: it only changes by *)
+(* Persist of a planned record, so a crash between any two steps leaves a state that was current once.      *)
+C06_Prefix == \A c \in Chans : (pset[c] => Apply(store[c], Head(q[c] \o << <<"Open", 0>> >>)[1], 0).kind \in {"applied","invalid","term"}) /\ store[c].status \in Status
+
 (* C19: voucher logs are append-only *)
 C19_AppendOnly == [][\A c \in Chans : /\ Len(store'[c].vouchers) >= Len(store[c].vouchers)
                                       /\ SubSeq(store'[c].vouchers, 1, Len(store[c].vouchers)) = store[c].vouchers
